@@ -170,6 +170,13 @@ fn print_family(dir: &Path, nfiles: usize) -> Vec<PathBuf> {
             s.push_str(&format!("const fam{}.Kind{} PKC{} = 1\nconst list<fam{}.Kind{}> PKL{} = [0, 1, 2, 3]\nconst map<string, fam{}.Kind{}> PKM{} = {{\"x\": 2, \"y\": fam{}.Kind{}.B}}\n", j, j, i, j, j, i, j, j, i, j, j));
             s.push_str(&format!("struct Defaults{} {{\n  1: optional fam{}.Kind{} k = 1,\n  2: optional Kind{} own = 2,\n  3: optional list<i32> l = [1, 2],\n  4: optional string s = NAME{},\n  5: optional list<fam{}.Kind{}> ks = [3, 0],\n}}\n", i, j, j, i, i, j, j));
         }
+        // constants of every nesting shape: containers in containers, maps in lists, struct values
+        s.push_str(&format!("const map<string, map<string, i32>> NESTED{} = {{\"a\": {{\"x\": 1, \"y\": 2}}, \"b\": {{\"z\": 3}}}}\n", i));
+        s.push_str(&format!("const list<map<string, i32>> LMAP{} = [{{\"a\": 1}}, {{\"b\": 2, \"c\": 3}}]\n", i));
+        s.push_str(&format!("const map<i32, list<string>> MLIST{} = {{1: [\"a\", \"b\"], 2: []}}\n", i));
+        s.push_str(&format!("const list<list<i64>> LL{} = [[1, 2], [], [3]]\n", i));
+        s.push_str(&format!("const map<string, map<string, list<map<string, i32>>>> DEEP{} = {{\"k\": {{\"l\": [{{\"m\": {}}}]}}}}\n", i, i));
+        s.push_str(&format!("const double PI{} = 3.25\nconst bool FLAG{} = true\nconst binary BIN{} = \"bytes\"\n", i, i, i));
         if i > 1 {
             let j = i - 2;
             if (i + j) % 2 == 0 {
